@@ -113,7 +113,13 @@ pub fn value_line(rng: &mut Rng, non_ascii: bool, continuation: bool) -> String 
             1 if i > 0 => "\t".into(),
             2 => ":".into(),
             3 => "#".into(),
-            4 if non_ascii => rng.pick(NON_ASCII).to_string(),
+            4 if non_ascii => {
+                if rng.chance(1, 25) {
+                    rng.pick(&["\u{0}", "\u{1}", "\u{7f}", "\u{1b}"]).to_string()
+                } else {
+                    rng.pick(NON_ASCII).to_string()
+                }
+            }
             5 => ((b'0' + rng.below(10) as u8) as char).to_string(),
             6 => rng.pick(&[",", "(", ")", "<", ">", "=", "|", "[", "]", "$", "{", "}", ".", "-", "/", "@", "~", "+"]).to_string(),
             _ => ((b'a' + rng.below(26) as u8) as char).to_string(),
@@ -372,9 +378,18 @@ fn biased_pos(rng: &mut Rng, s: &str) -> usize {
 
 /// Apply one storage/transport fault that keeps the text valid UTF-8. Returns the fault kind.
 pub fn text_fault(rng: &mut Rng, s: &mut String) -> &'static str {
-    let kind = rng.below(14);
+    let kind = rng.below(15);
     let lines: Vec<String> = s.split_inclusive('\n').map(|l| l.to_string()).collect();
     match kind {
+        14 if lines.len() > 2 => {
+            // a run of lines delivered in reverse order (an END marker before its BEGIN, a continuation before its field)
+            let n = 2 + rng.below(5.min(lines.len() - 1));
+            let st = rng.below(lines.len() - n + 1);
+            let mut v = lines.clone();
+            v[st..st + n].reverse();
+            *s = v.concat();
+            "reverse_lines"
+        }
         13 if s.chars().any(|c| !c.is_whitespace()) => {
             // one word lost, the blanks around it stay ("-b  [sub]", "a (>= ) b", "Field:  \n")
             let chars: Vec<(usize, char)> = s.char_indices().collect();
